@@ -299,3 +299,20 @@ func (i *FSTIterator) Next() error {
 func (i *FSTIterator) Seek(key []byte) error { return i.pointTo(key) }
 
 func (i *FSTIterator) Close() error { return nil }
+
+// GetMinKey / GetMaxKey return the smallest / largest key (nil for an empty FST).
+func (f *FST) GetMinKey() ([]byte, error) {
+	if len(f.keys) == 0 {
+		return nil, nil
+	}
+	return append([]byte(nil), f.keys[0]...), nil
+}
+
+func (f *FST) GetMaxKey() ([]byte, error) {
+	if len(f.keys) == 0 {
+		return nil, nil
+	}
+	return append([]byte(nil), f.keys[len(f.keys)-1]...), nil
+}
+
+// Exists / Len on a Reader-less FST are covered by Contains and Len above.
